@@ -201,7 +201,7 @@ func c04NonParsing(r *Run) {
 	})
 	// IP / signature helpers
 	enumStrings(r, []byte("1f:.[]x"), 0, r.pick(7, 9), nil, func(c *enumCtx, s []byte) { apiCheck(r, c, "IPsig", s, nil) })
-	enumStrings(r, []byte("1:"), 10, r.pick(18, 20), nil, func(c *enumCtx, s []byte) { apiCheck(r, c, "IPsig", s, nil) })
+	enumStrings(r, []byte("1:"), 10, r.pick(21, 23), nil, func(c *enumCtx, s []byte) { apiCheck(r, c, "IPsig", s, nil) })
 	enumStrings(r, append([]byte("25.;=z-"), 0x00, 0xff), 0, r.pick(5, 6), nil, func(c *enumCtx, s []byte) { apiCheck(r, c, "IPsig", s, nil) })
 }
 
